@@ -133,6 +133,9 @@ def judge(case, obs, resp):
         return {"status": "error", "why": f"harness: {obs['harness_exc']} {obs.get('msg')}"}
     if not resp["indomain"] or not final_config_ok(case):
         return {"status": "skip", "why": "value does not fit / outside the domain"}
+    if any(fd["k"] == "flt" and codec.dec_str(fd["fmt"]) in "Ee" and isinstance(v, dict) and "f" in v and libm_log10_off(codec.dec_val(v))
+           for fd, v in zip(case["fields"], case["values"])):
+        return {"status": "skip", "why": "E notation, subnormal value for which libm's log10 is off by one at a power of ten: outside the modelled domain"}
     if not resp["model_holds"]:
         if resp.get("agree") and not resp["holds"] and "exc" not in obs:
             # the exact model and the implementation agree and the statement fails for both: a failing input of the
@@ -190,12 +193,18 @@ K2_INPUTS = {(1, 21), (2, 203), (4, 20241), (5, 202403), (7, 20240226), (8, 2024
 def matches_known(trigger, case):
     if trigger != "e_subnormal_coarse_grid":
         return False
+    hit = False
     for fd, v in zip(case["fields"], case["values"]):
         if fd["k"] == "flt" and codec.dec_str(fd["fmt"]) in "Ee" and isinstance(v, dict) and "f" in v:
             x = codec.dec_val(v)
             if x == x and abs(x) < 2.0**-1022 and (fd["dec"], int(abs(x) / 5e-324)) in K2_INPUTS:
-                return True
-    return False
+                hit = True
+    if not hit:
+        return False
+    # the finding is about the ACCURACY of the text only: the cycle itself must still be stable (anything else
+    # that goes wrong with such a value is a different violation and is reported)
+    obs = run_impl(case)
+    return "written" in obs and obs["rewritten"] == obs["written"]
 
 
 def snippet(case):
@@ -212,7 +221,41 @@ def ulp_step(x, k):
     return struct.unpack("<d", struct.pack("<q", b + k))[0]
 
 
+def exact_floor_log10(x):
+    """floor(log10(|x|)) in exact arithmetic (x finite, non-zero)"""
+    from fractions import Fraction
+
+    a = Fraction(abs(x))
+    k = int(math.floor(math.log10(abs(x))))
+    while Fraction(10) ** k > a:
+        k -= 1
+    while Fraction(10) ** (k + 1) <= a:
+        k += 1
+    return k
+
+
+def libm_log10_off(x):
+    """libm's log10 rounds to the integer just above for values a few ulps below a power of ten, so that the
+    writer's floor(log10(|x|)) is one more than the true decimal exponent. For a normal double the text written in E
+    notation (<= 12 decimals) is the same either way — the model uses the exact exponent and the correspondence
+    confirms it on every run. For a SUBNORMAL value, whose relative grid (1/m) is coarser than 10^-13, the text
+    differs (20240225330730 * 2^-1074 in 12 decimals: 1.000000000000E-310 with libm's exponent,
+    9.999999999999E-311 with the exact one; both texts meet the property). libm is outside the model: such
+    inputs are outside the modelled domain (not generated; skipped when replayed)."""
+    if x != x or x in (0.0, float("inf"), float("-inf")) or abs(x) >= 2.0**-1022:
+        return False
+    return int(math.floor(math.log10(abs(x)))) != exact_floor_log10(x)
+
+
 def float_value(rng, dec):
+    for _ in range(20):
+        x, fam = float_value_raw(rng, dec)
+        if not libm_log10_off(x):
+            return x, fam
+    return 5e-324, "subnormal"
+
+
+def float_value_raw(rng, dec):
     fam = rng.choice(["tie", "carry", "magnitude", "bits", "zero_tiny", "plain", "plain", "subnormal"])
     if fam == "tie":
         d = rng.randrange(0, dec + 2)
